@@ -20,6 +20,7 @@ type feeCase struct {
 	Mul        int64
 	Hist       string // put | put-put | put-setfee-put
 	Self       bool   // the owner is Alphabet node 0's own account
+	Shape      string // "" | meta (the five-argument put with the meta flag) | notoken (no session token: the owner's key is bound in NeoFSID after the payments)
 }
 
 type FeeGrid struct {
@@ -68,7 +69,11 @@ func (d *FeeGrid) Build() *World {
 func (d *FeeGrid) Cases(tier string) []GridCase {
 	var out []GridCase
 	add := func(c feeCase) {
-		out = append(out, GridCase{Name: fmt.Sprintf("fee=%d alias=%d named=%q balance=%d*T%+d hist=%s self=%v", c.Fee, c.Alias, c.Named, c.Mul, c.Off, c.Hist, c.Self), Data: c})
+		name := fmt.Sprintf("fee=%d alias=%d named=%q balance=%d*T%+d hist=%s self=%v", c.Fee, c.Alias, c.Named, c.Mul, c.Off, c.Hist, c.Self)
+		if c.Shape != "" {
+			name += " shape=" + c.Shape
+		}
+		out = append(out, GridCase{Name: name, Data: c})
 	}
 	for _, fee := range []int64{0, 1, 7} {
 		for _, al := range []int64{0, 3} {
@@ -77,6 +82,13 @@ func (d *FeeGrid) Cases(tier string) []GridCase {
 					for _, hist := range []string{"put", "put-put", "put-setfee-put", "put-setzero-put"} {
 						add(feeCase{Fee: fee, Alias: al, Named: named, Mul: bo[0], Off: bo[1], Hist: hist})
 					}
+				}
+			}
+			// the other entry shapes of the same registration
+			for _, bo := range [][2]int64{{1, -1}, {1, 0}, {1, 1}} {
+				add(feeCase{Fee: fee, Alias: al, Named: "", Mul: bo[0], Off: bo[1], Hist: "put", Shape: "meta"})
+				for _, named := range []string{"", "new"} {
+					add(feeCase{Fee: fee, Alias: al, Named: named, Mul: bo[0], Off: bo[1], Hist: "put", Shape: "notoken"})
 				}
 			}
 			add(feeCase{Fee: fee, Alias: al, Named: "new", Mul: 1, Off: 0, Hist: "put", Self: true})
@@ -231,7 +243,18 @@ func (d *FeeGrid) Eval(x *Exec, root *Node, gc GridCase) GridResult {
 	if c.Named == "prereg" && w.Comm != w.Alpha {
 		signers = []util.Uint160{w.Alpha, w.Comm} // records of a committee-owned domain need the committee's witness
 	}
-	obs, after := x.Do(cur, Call{Script: put(blob, name), Signers: signers, Label: "measured put"})
+	measured := put(blob, name)
+	switch c.Shape {
+	case "meta":
+		measured = Script(cnt, "put", blob, sig, key, tok, true)
+	case "notoken":
+		if name == "" {
+			measured = Script(cnt, "put", blob, sig, key, []byte{})
+		} else {
+			measured = Script(cnt, "putNamed", blob, sig, key, []byte{}, name, "")
+		}
+	}
+	obs, after := x.Do(cur, Call{Script: measured, Signers: signers, Label: "measured put"})
 	cur = after
 	stored := w.Read(after.L, after.H, after.TS, cnt, "get", cid).Halt
 	wantOK := target >= T
